@@ -134,5 +134,5 @@ func check(c Case) hx.Verdict {
 }
 
 func TestProp(t *testing.T) {
-	hx.RunProperty(t, hx.NewSub("core", 20000, 150000, genCase, check))
+	hx.RunProperty(t, hx.NewSub("core", 20000, 150000, genCase, check), hx.NewSub("int_spellings", 3000, 20000, genSpell, checkSpell))
 }
